@@ -77,6 +77,7 @@ let handle = function
       let (fin, oks) = c12_sorted_ops (ops (int_of_string nops) rest) in
       (if oks = [] then "-" else String.concat "" (List.map (fun b -> if b then "1" else "0") oks)) ^ " " ^
       (if fin = [] then "-" else String.concat " " (List.map (fun ((o, t), (_, d)) -> hex_of_name o ^ ":" ^ string_of_int (int_of_n t) ^ ":" ^ hex_of_bytes d) fin))
+  | ["va"; sa; ka] -> if c12_alg_mismatch (num sa) (num ka) then "Err invalid" else "-"
   | ["lc"; owner] -> string_of_int (int_of_n (c12_label_count (name_of owner)))
   | ["wce"; labels; owner] ->
       (match c12_wce (num labels) (name_of owner) with
